@@ -54,6 +54,13 @@ def _format_error(interp, args, kwargs):
     if actual is not None:
         if isinstance(actual, str):
             code = actual if actual else code
+        elif isinstance(actual, SV) and actual.ty.name == "Opt":
+            # `if actual_error:` - None or '' keeps the registered code
+            from pyvc.vals import sort_of
+            so = sort_of(actual.ty)
+            val = ctx.wrap(so.val(actual.t), actual.ty.args[0])
+            cond = z3.And(z3.Not(so.is_none(actual.t)), ctx.zbool(ctx.truth(val)))
+            code = interp.merge(cond, val, code)
         else:
             raise Unsupported("symbolic actual_error")
     W = interp.field_write
